@@ -11,8 +11,9 @@ LOCMAP = {"rk": "obj", "key": "in", "nonce": "in", "pt": "in", "ct": "in", "aad"
 ORDER = ["obj", "in", "pkg", "scratch", "out"]
 
 
-def footprint(results):
+def footprint(results, locmap=None):
     """union of the access summaries over the contexts -> ordered micro-steps"""
+    LOCMAP = locmap or globals()["LOCMAP"]
     rd, wr = set(), set()
     for r in results:
         for reg, (rlo, rhi, wlo, whi) in r["acc"].items():
@@ -35,13 +36,20 @@ def footprint(results):
 def write_conc_input(chk):
     vec = [(0, 0, 12, 16), (5, 3, 12, 16), (33, 20, 16, 12), (300, 130, 12, 16)]
     fps = {}
+    # where does the Go glue take the scratch block from?  (go/ast on sm4_gcm_amd64.go)
+    from .. import extract
+    ex = extract.raw_extract(chk)
+    chk.extra["scratch_is_local"] = dict(seal=ex["seal_scratch_local"], open=ex["open_scratch_local"])
     for kind, fname, rt, ctxs in (("seal", "gcm_amd64.s", "sealAsm", ac.ctx_gcm(vec, False)),
                                   ("open", "gcm_amd64.s", "openAsm", ac.ctx_gcm(vec, True)),
                                   ("block", "asm_amd64.s", "cryptoBlockAsm", ac.ctx_kernel(1))):
         res, st = ac.run_routine(chk, fname, rt, ctxs, workers=2)
         chk.states += st["distinct"]
         chk.transitions += st["generated"]
-        fps[kind] = footprint(res)
+        lm = dict(LOCMAP)
+        if kind in ("seal", "open") and not ex[kind + "_scratch_local"]:
+            lm["temp"] = "obj"          # scratch reachable from the shared object / a package variable
+        fps[kind] = footprint(res, lm)
     # Go-level calls (sign / verify / derive): read shared keys and package-level constants, write
     # private results; that they do not write package state is what the dynamic half observes
     fps["sm2"] = [("r", "in"), ("r", "pkg"), ("w", "scratch"), ("w", "out")]
